@@ -76,6 +76,13 @@ def run(prog, chk):
 
 # ---------------------------------------------------------------------------
 def isolation(prog, chk):
+    static_state(prog, chk)
+    per_transform_state(prog, chk)
+
+
+def static_state(prog, chk):
+    """no static, thread-local or process-global state that a transform could write (shared with C06: repeating a
+    transform in the same process gives the same bytes)"""
     statics = [i for i in prog.items if i["item"] == "static"]
     for it in statics:
         ok = (not it["mutable"]) and it["freeze"] and not it["thread_local"]
@@ -101,6 +108,9 @@ def isolation(prog, chk):
             if rv and rv["k"] == "tlsref":
                 chk.bad("A9.static", f"{body.short}:tls", body.where(b, s.get("line")), f"thread-local {rv['def']} accessed")
     chk.ok("A9.global-mutator", "none", "-", f"no call to {', '.join(x.split('::')[-1] for x in GLOBAL_MUTATORS)} in {len(prog.bodies)} bodies")
+
+
+def per_transform_state(prog, chk):
     # per-transform state: type walk
     bad = []
     seen = set()
